@@ -161,7 +161,7 @@ def run_both(cases, tag, release=False, model=True, timeout=600):
     # with a 60 s limit, still does not finish.
     def model_ends(t):
         return not (any(x == "END" and r.startswith("oof") for x, r in t) or any(x == "ABORT" for x, _ in t))
-    hung = [c for c in cases if any(t == "HANG" for t, _ in impl.get(c["id"], [])) and model_ends(mod.get(c["id"], []))]
+    hung = [c for c in cases if any(t == "HANG" for t, _ in impl.get(c["id"], [])) and not c.get("no_model") and mod.get(c["id"]) and model_ends(mod[c["id"]])]
     if hung:
         os.environ["VERIF_CASE_TIMEOUT_MS"] = "60000"
         try:
